@@ -4,6 +4,10 @@ mod tok;
 mod ehist;
 mod c02;
 mod c01;
+mod rexpr;
+mod rdl;
+mod samples;
+mod c04;
 
 use common::Tier;
 
@@ -21,6 +25,8 @@ fn main() {
     match args[1].as_str() {
         "C02" => c02::run(tier),
         "C01" => c01::run(tier),
+        "C04" => c04::run(tier),
+        "bind" => { let r = samples::bind_or_die(); println!("rsig ok {} rejected {} ; rdl validations {} exec-error {} skipped {:?}", r.rsig_accepted, r.rsig_rejected, r.rdl_validations, r.rdl_exec_error_validations, r.rdl_skipped); }
         other => {
             eprintln!("unknown property {other}");
             std::process::exit(2);
